@@ -43,6 +43,10 @@ def _num(v):
         return True
     if z3.is_false(v):
         return False
+    if z3.is_fp_value(v):
+        from .fp import fp_to_float
+
+        return fp_to_float(v)
     return None
 
 
